@@ -29,6 +29,7 @@ import (
 	"github.com/drand/drand/v2/crypto"
 	"github.com/drand/drand/v2/internal/chain"
 	"github.com/drand/drand/v2/internal/core"
+	"github.com/drand/drand/v2/internal/dkg"
 	dnet "github.com/drand/drand/v2/internal/net"
 	"github.com/drand/drand/v2/internal/util"
 	pdkg "github.com/drand/drand/v2/protobuf/dkg"
@@ -69,6 +70,7 @@ type DaemonScenario struct {
 	HealAtMs   int64         `json:"heal_at_ms"`
 	BeaconIDs  []string      `json:"beacon_ids,omitempty"` // default: ["default"]
 	DKGOnly    bool          `json:"dkg_only,omitempty"`
+	Crash      *CrashPlan    `json:"crash,omitempty"`
 	Mode       string        `json:"mode,omitempty"` // engine sub-mode chosen by the generator (fuzz, secrets, ...)
 }
 
@@ -90,6 +92,12 @@ type dNode struct {
 	since  time.Time
 	stopped map[string]bool // beacon ids stopped through the control API
 	routeVer int            // odd while a chain is being stopped or loaded
+	pc       persistCtl
+	zombie   bool
+	snap     string
+	clients  []*SimClient
+	dkgStore dkg.Store
+	gone     chan struct{} // closed when this incarnation crashes
 }
 
 func (n *dNode) bumpRoute() {
@@ -131,11 +139,14 @@ type daemonEngine struct {
 	chains map[string]*chainCtx
 	ctlSeq int
 	curAdr string // address handed to the client factory while a daemon is being built
+	curNode *dNode
 	wire   bytes.Buffer
 	wireMu sync.Mutex
 	keepIO bool
 	served int
 	oldShares []oldShare
+	crashKind string
+	servedMax map[int]uint64
 }
 
 // ---------------------------------------------------------------- endpoint
@@ -360,7 +371,8 @@ func (e *daemonEngine) startDaemon(n *dNode, fresh bool) error {
 		e.rec.Count("probe:fatal", 1)
 	})
 	n.sink = sink
-	e.curAdr = n.addr
+	e.curAdr, e.curNode = n.addr, n
+	n.clients = nil
 	conf := e.newConfig(n, lg)
 	ctx := context.Background()
 	dd, err := core.NewDrandDaemon(ctx, conf)
@@ -373,22 +385,41 @@ func (e *daemonEngine) startDaemon(n *dNode, fresh bool) error {
 			if err := ks.SaveKeyPair(n.pairs[id]); err != nil {
 				return err
 			}
-			if _, err := dd.InstantiateBeaconProcess(ctx, id, ks); err != nil {
+			if _, err := dd.InstantiateBeaconProcess(ctx, id, &pKeyStore{Store: ks, n: n, base: conf.ConfigFolderMB(), id: id}); err != nil {
 				return fmt.Errorf("InstantiateBeaconProcess: %w", err)
 			}
 		}
 	} else {
-		if err := dd.LoadBeaconsFromDisk(ctx, "", false, ""); err != nil {
+		// the daemon's own restart path (LoadBeaconsFromDisk minus the metrics server), with the
+		// key stores decorated
+		loadAll := func() error {
+			stores, err := key.NewFileStores(conf.ConfigFolderMB())
+			if err != nil {
+				return err
+			}
+			var ids []string
+			for id := range stores {
+				ids = append(ids, id)
+			}
+			sort.Strings(ids)
+			for _, id := range ids {
+				if _, err := dd.LoadBeaconFromStore(ctx, id, &pKeyStore{Store: stores[id], n: n, base: conf.ConfigFolderMB(), id: id}); err != nil {
+					return err
+				}
+			}
+			return nil
+		}
+		if err := loadAll(); err != nil {
 			e.rec.Ev("load_failed", n.addr, "%v", err)
 			n.mu.Lock()
 			n.dd, n.vep, n.up, n.since = dd, dnet.VerifEndpointFor(n.addr), true, time.Now()
 			n.mu.Unlock()
 			e.w.Register(n.addr, &daemonEP{n})
-			return fmt.Errorf("LoadBeaconsFromDisk: %w", err)
+			return fmt.Errorf("loading beacons from disk: %w", err)
 		}
 	}
 	n.mu.Lock()
-	n.dd, n.vep, n.up, n.since = dd, dnet.VerifEndpointFor(n.addr), true, time.Now()
+	n.dd, n.vep, n.up, n.since, n.gone = dd, dnet.VerifEndpointFor(n.addr), true, time.Now(), make(chan struct{})
 	n.mu.Unlock()
 	e.w.Register(n.addr, &daemonEP{n})
 	e.rec.Ev("daemon_start", n.addr, "gen=%d fresh=%v", n.gen, fresh)
@@ -444,7 +475,15 @@ func (e *daemonEngine) setup() error {
 		e.chains[id] = &chainCtx{id: id, ref: ref, sch: sch}
 	}
 	dnet.VerifReset()
-	dnet.VerifClientFactory = func(l dlog.Logger) dnet.Client { return &SimClient{W: e.w, Self: e.curAdr} }
+	dnet.VerifClientFactory = func(l dlog.Logger) dnet.Client {
+		c := &SimClient{W: e.w, Self: e.curAdr}
+		if e.curNode != nil {
+			e.curNode.clients = append(e.curNode.clients, c)
+		}
+		return c
+	}
+	e.servedMax = map[int]uint64{}
+	e.installPersistHooks()
 	simrt.PermHook = func(k int) []int {
 		return NewRng(H64(sc.Seed, "perm", k, time.Now().UnixNano())).Perm(k)
 	}
@@ -485,12 +524,25 @@ func (e *daemonEngine) participant(n *dNode, id string) *pdkg.Participant {
 func (e *daemonEngine) cmd(n *dNode, id string, c *pdkg.DKGCommand) error {
 	n.mu.Lock()
 	dd := n.dd
+	gone := n.gone
 	n.mu.Unlock()
 	if dd == nil {
 		return fmt.Errorf("down")
 	}
 	c.Metadata = &pdkg.CommandMetadata{BeaconID: id}
-	_, err := dd.Command(context.Background(), c)
+	// the command runs on its own goroutine: if the process "dies" inside it (C13) the
+	// operator's call never returns, the harness must go on
+	done := make(chan error, 1)
+	go func() {
+		_, err := dd.Command(context.Background(), c)
+		done <- err
+	}()
+	var err error
+	select {
+	case err = <-done:
+	case <-gone:
+		err = fmt.Errorf("node crashed during the command")
+	}
 	e.rec.Ev("dkg_cmd", n.addr, "%T err=%v", c.Command, err != nil)
 	return err
 }
@@ -560,7 +612,7 @@ func (e *daemonEngine) collectEpoch(id string, members []int, epochNo int, old *
 			continue
 		}
 		g, sh := bp.VerifGroup(), bp.VerifShare()
-		if g == nil || sh == nil {
+		if g == nil || sh == nil || sh.Share == nil || g.PublicKey == nil {
 			continue
 		}
 		if old != nil && groupDiff(old, g) == "" {
@@ -662,6 +714,11 @@ func groupTOML(g *key.Group) []byte {
 // checkServed compares a beacon returned on any public surface with the chain.
 func (e *daemonEngine) checkServed(cc *chainCtx, where, node string, want uint64, round uint64, prev, sig, randomness []byte) {
 	e.served++
+	for _, n := range e.nodes {
+		if n.addr == node && round > e.servedMax[n.idx] {
+			e.servedMax[n.idx] = round
+		}
+	}
 	if cc.chain == nil {
 		return
 	}
